@@ -23,6 +23,12 @@ def run_behaviours(batch):
     out = []
     for tid, beh in batch:
         kinds = beh["kinds"]
+        # integer values are scaled (x 1000) in every other behaviour: values outside CPython's small-int cache are
+        # distinct objects, so a comparison by identity instead of equality shows
+        scale = 1000 if tid % 2 else 1
+        sc = lambda m: {"ty": m["ty"], "b": m["b"], "n": [x * scale for x in m["n"]]}
+        beh = dict(beh, models=[sc(m) for m in beh["models"]], order=[sc(m) for m in beh["order"]],
+                   facts=[dict(f, n=f["n"] * scale) for f in beh["facts"]], lo=beh["lo"] * scale, hi=beh["hi"] * scale)
         models = [PB.untyped(m) for m in beh["models"]]
         order = [PB.untyped(m) for m in beh["order"]]
         keys = beh["keys"]
@@ -55,6 +61,9 @@ def run_behaviours(batch):
             e.setdefault("trees", [])
             e.setdefault("ret", False)
             e.setdefault("m", {"ty": [], "b": [], "n": []})
+        rec["expected_facts"] = beh["facts"]
+        rec["order"] = beh["order"]
+        rec["lo"], rec["hi"] = beh["lo"], beh["hi"]
         rec["ref_nsolve"] = beh["nsolve"]
         rec["followed_reference"] = [PB.untyped(e["m"]) for e in rec["conv"] if e["ev"] == "solve" and e["ret"]] == order
         out.append(rec)
@@ -110,9 +119,9 @@ def loop_part(chk, tier, seed):
             chk.violation({"clause": v, "route": "refinement-loop"},
                           f"Solver.solve against a correct adversarial backend: {v}",
                           {"kinds": rec["kinds"], "models": rec["models"], "keys": rec["keys"],
-                           "order": beh["order"], "lo": beh["lo"], "hi": beh["hi"], "nsolve": beh["nsolve"],
+                           "order": rec["order"], "lo": rec["lo"], "hi": rec["hi"], "nsolve": beh["nsolve"],
                            "observed": {k: rec[k] for k in ("status", "exc", "ret", "ty", "b", "n")},
-                           "expected_facts": beh["facts"]})
+                           "expected_facts": rec["expected_facts"]})
     chk.sample({"source": "SolveLoop behaviour", "models": behs[len(behs) // 2]["models"],
                 "keys": behs[len(behs) // 2]["keys"], "order": behs[len(behs) // 2]["order"]})
     chk.extra["loop_behaviours_replayed"] = len(recs)
